@@ -1,6 +1,8 @@
 //! Textbook Robinson unification with occurs check over `Term`.
-//! The substitution is kept idempotent by eager application (no triangular walk), so this
-//! shares nothing with the implementation's `SMap::walk`.
+//! Written independently of the implementation (own term type, own substitution, no shared
+//! code). The substitution is triangular (bindings are not re-applied when a new one is
+//! added) because the eager, idempotent representation costs O(n^2) memory per state on
+//! long recursive derivations, which the reference interpreter keeps alive per level.
 
 use crate::ast::{Term, VarId};
 use std::collections::BTreeMap;
@@ -13,53 +15,73 @@ impl Subst {
         Subst(BTreeMap::new())
     }
 
+    /// Resolve the top of a term: follow variable bindings until an unbound variable or a
+    /// non-variable term is reached.
+    fn top<'a>(&'a self, mut t: &'a Term) -> &'a Term {
+        while let Term::Var(v) = t {
+            match self.0.get(v) {
+                Some(b) => t = b,
+                None => break,
+            }
+        }
+        t
+    }
+
+    /// The term with every bound variable replaced, recursively.
     pub fn apply(&self, t: &Term) -> Term {
+        let t = self.top(t);
         match t {
-            Term::Var(v) => match self.0.get(v) {
-                Some(b) => b.clone(), // idempotent: b needs no further application
-                None => t.clone(),
-            },
-            Term::Cons(h, tl) => Term::cons(self.apply(h), self.apply(tl)),
+            Term::Cons(..) => {
+                // iterate along the spine to keep the recursion shallow on long lists
+                let mut items = vec![];
+                let mut cur = t;
+                loop {
+                    match cur {
+                        Term::Cons(h, tl) => {
+                            items.push(self.apply(h));
+                            cur = self.top(tl);
+                        }
+                        _ => break,
+                    }
+                }
+                let tail = match cur {
+                    Term::Cmp(..) => self.apply(cur),
+                    other => other.clone(),
+                };
+                Term::improper(items, tail)
+            }
             Term::Cmp(k, a) => Term::Cmp(*k, a.iter().map(|x| self.apply(x)).collect()),
             _ => t.clone(),
         }
     }
 
-    fn bind(&mut self, v: VarId, t: Term) {
-        // t is already fully applied and does not contain v
-        let single = {
-            let mut m = BTreeMap::new();
-            m.insert(v, t.clone());
-            Subst(m)
-        };
-        for (_, b) in self.0.iter_mut() {
-            *b = single.apply(b);
+    fn occurs(&self, v: VarId, t: &Term) -> bool {
+        let t = self.top(t);
+        match t {
+            Term::Var(w) => *w == v,
+            Term::Cons(h, tl) => self.occurs(v, h) || self.occurs(v, tl),
+            Term::Cmp(_, a) => a.iter().any(|x| self.occurs(v, x)),
+            _ => false,
         }
-        self.0.insert(v, t);
     }
 }
 
 pub fn occurs(v: VarId, t: &Term) -> bool {
-    match t {
-        Term::Var(w) => *w == v,
-        Term::Cons(h, tl) => occurs(v, h) || occurs(v, tl),
-        Term::Cmp(_, a) => a.iter().any(|x| occurs(v, x)),
-        _ => false,
-    }
+    Subst::new().occurs(v, t)
 }
 
 /// Extends `s` to a most general unifier of `a` and `b`; returns false (leaving `s` in an
 /// unspecified state) if none exists.
 pub fn unify_in(s: &mut Subst, a: &Term, b: &Term) -> bool {
-    let a = s.apply(a);
-    let b = s.apply(b);
+    let a = s.top(a).clone();
+    let b = s.top(b).clone();
     match (&a, &b) {
         (Term::Var(x), Term::Var(y)) if x == y => true,
         (Term::Var(x), t) | (t, Term::Var(x)) => {
-            if occurs(*x, t) {
+            if s.occurs(*x, t) {
                 false
             } else {
-                s.bind(*x, t.clone());
+                s.0.insert(*x, t.clone());
                 true
             }
         }
@@ -102,5 +124,8 @@ mod tests {
         let s = unify(&Subst::new(), &x, &y).unwrap();
         let s = unify(&s, &y, &Term::Int(3)).unwrap();
         assert_eq!(s.apply(&x), Term::Int(3));
+        // occurs check through a binding
+        let s = unify(&Subst::new(), &y, &Term::list(vec![x.clone()])).unwrap();
+        assert!(unify(&s, &x, &Term::list(vec![Term::Int(1), y.clone()])).is_none());
     }
 }
